@@ -81,15 +81,30 @@ func FieldOf(v ssa.Value) (typ, field string, base ssa.Value, ok bool) {
 		if st == nil {
 			return "", "", nil, false
 		}
-		return NamedTypeString(x.X.Type()), st.Field(x.Field).Name(), x.X, true
+		tn := NamedTypeString(x.X.Type())
+		return tn, recordedField(tn, st.Field(x.Field).Name()), x.X, true
 	case *ssa.Field:
 		st, _ := x.X.Type().Underlying().(*types.Struct)
 		if st == nil {
 			return "", "", nil, false
 		}
-		return NamedTypeString(x.X.Type()), st.Field(x.Field).Name(), x.X, true
+		tn := NamedTypeString(x.X.Type())
+		return tn, recordedField(tn, st.Field(x.Field).Name()), x.X, true
 	}
 	return "", "", nil, false
+}
+
+// RecordedField maps a renamed struct field back to the name the rules know (ANCHORS).
+func RecordedField(typ, field string) string { return recordedField(typ, field) }
+
+func recordedField(typ, field string) string {
+	if len(fieldAlias) == 0 {
+		return field
+	}
+	if old, ok := fieldAlias[[2]string{typ, field}]; ok {
+		return old
+	}
+	return field
 }
 
 func derefStruct(t types.Type) *types.Struct {
